@@ -429,6 +429,8 @@ def replay(q, work, prep, values, outdir):
         'run: SYMX_EFENCE=1 SYMX_VALUES=values.txt ./replay_real  (exit 1 / SIGSEGV = violation reproduced)\n'
         % (q.key, q.harness, q.entry, q.defines, q.lowering))
     env = dict(os.environ, SYMX_VALUES=vf, SYMX_EFENCE='1')
+    if q.leak:
+        env['SYMX_LEAKCHECK'] = '1'
     try:
         r = run([os.path.join(d, 'replay_real')], env=env, timeout=120)
         rc, out = r.returncode, r.stdout + r.stderr
